@@ -237,6 +237,25 @@ def whole_container_calls():
             yield f"update_all({attr}=callable-><{name}>)", attr, name, (lambda db, attr=attr, bad=bad: db.update_all(**{attr: (lambda old: bad)}))
 
 
+def pair_list_calls():
+    """tags/fields given as an iterable of (key, value) pairs instead of a mapping, carrying a wrongly typed entry."""
+    from tinyflux import Point, TagQuery
+
+    Q = TagQuery().k.exists()
+    shapes = {
+        "tags": [[("k", 5)], [(5, "v")], (("k", b"x"),), [("k", "ok"), ("j", 1.5)]],
+        "fields": [[("x", True)], [(7, 1)], (("x", "abc"),), [("x", 1), ("y", [1])]],
+    }
+    for attr, variants in shapes.items():
+        for i, bad in enumerate(variants):
+            name = f"pairs#{i}"
+            yield f"update({attr}=<{name}>)", attr, name, (lambda db, attr=attr, bad=bad: db.update(Q, **{attr: bad}))
+            yield f"update({attr}=<iter {name}>)", attr, name, (lambda db, attr=attr, bad=bad: db.update(Q, **{attr: iter(bad)}))
+            yield f"update_all({attr}=<{name}>)", attr, name, (lambda db, attr=attr, bad=bad: db.update_all(**{attr: bad}))
+            yield f"handle.update({attr}=<{name}>)", attr, name, (lambda db, attr=attr, bad=bad: db.measurement("m0").update(Q, **{attr: bad}))
+            yield f"Point({attr}=<{name}>)", attr, name, (lambda db, attr=attr, bad=bad: db.insert(Point(**{attr: bad})))
+
+
 def run(res, tier, seed, shard, nshards):
     from tinyflux import Point, TinyFlux
     from tinyflux.storages import MemoryStorage
@@ -328,6 +347,8 @@ def run(res, tier, seed, shard, nshards):
                     falsy_arg = (not bad) and label.startswith(("update", "handle.update", "insert(", "insert_multiple(")) and "callable" not in label and slot in ("time", "measurement")
                     one_case(label, slot, vname, call, must_raise=not falsy_arg)
         for label, attr, vname, call in whole_container_calls():
+            one_case(label, attr, vname, call, must_raise=True)
+        for label, attr, vname, call in pair_list_calls():
             one_case(label, attr, vname, call, must_raise=True)
     res.exhaustive = True
     res.require("rejected_with_ValueError_or_TypeError")
